@@ -254,4 +254,65 @@ func c07r4(r *R) {
 		})
 	}
 	o.OK("%d indexed stores scanned, none into a published capture slice", n)
+	// published slices are fresh allocations or pure appends to the same field (append writes beyond len only)
+	nt := c.Named("pkg/metadata", "HTTP2FingerprintingFrames")
+	r.need(nt != nil, "type not found")
+	for _, f := range []string{"Settings", "Priorities", "Headers"} {
+		for _, a := range fieldAccesses(c.Product(), nt, f) {
+			st, ok := a.Instr.(*ssa.Store)
+			if a.Kind != "write" || !ok {
+				continue
+			}
+			o2 := r.Ob("C07.R4", "fresh-or-append:"+f+":"+funcName(a.Fn)).AtI(st)
+			if why := sliceProvenanceDefect(c, st.Val, f, 0, map[ssa.Value]bool{}, false); why != "" {
+				o2.Fail("the slice published as HTTP2Frames.%s %s; a handler reading the previously published slice would see its elements overwritten", f, why)
+			}
+		}
+	}
+}
+
+// sliceProvenanceDefect walks the definition of a slice value: ok if every origin is a fresh allocation / nil,
+// or a load of the same field reached only through append (accumulate). Returns "" or the defect.
+func sliceProvenanceDefect(c *Ctx, v ssa.Value, field string, depth int, seen map[ssa.Value]bool, sliced bool) string {
+	if depth > 25 || seen[v] {
+		return ""
+	}
+	seen[v] = true
+	switch x := v.(type) {
+	case *ssa.Const:
+		return ""
+	case *ssa.MakeSlice:
+		return ""
+	case *ssa.Alloc:
+		return ""
+	case *ssa.Phi:
+		for _, e := range x.Edges {
+			if d := sliceProvenanceDefect(c, e, field, depth+1, seen, sliced); d != "" {
+				return d
+			}
+		}
+		return ""
+	case *ssa.Slice:
+		if _, isAlloc := x.X.(*ssa.Alloc); isAlloc {
+			return ""
+		}
+		return sliceProvenanceDefect(c, x.X, field, depth+1, seen, true)
+	case *ssa.Call:
+		if calleeName(&x.Call) == "builtin.append" {
+			return sliceProvenanceDefect(c, x.Call.Args[0], field, depth+1, seen, sliced)
+		}
+		return "comes from call " + c.Expr(x)
+	case *ssa.UnOp:
+		e := c.Expr(x)
+		if strings.HasSuffix(e, ".HTTP2Frames."+field) || strings.HasSuffix(e, "."+field) {
+			if sliced {
+				return "re-slices the previously published slice (" + e + "[...]) and so reuses its backing array"
+			}
+			return ""
+		}
+		return "aliases " + e
+	case *ssa.ChangeType:
+		return sliceProvenanceDefect(c, x.X, field, depth+1, seen, sliced)
+	}
+	return ""
 }
